@@ -113,6 +113,7 @@ class C13:
 
         # a starting value exactly on one of its prior's bounds
         onbound = None
+        onbound_single = False
         cand = [k for k in free if priors[k]['ctor'] == 'uniform'
                 and k != excluded]
         if start != 'truth' and cand and rng.random() < 0.4:
@@ -120,6 +121,15 @@ class C13:
             a_ = priors[onbound]['args']
             side = 'hi' if a_['guess'] > truth[onbound] else 'lo'
             a_[side] = a_['guess']
+            if rng.random() < 0.5:
+                # ... and every other parameter starts where it belongs: the
+                # misfit then falls monotonically towards the inside of the
+                # bound, and the fit has to follow it all the way
+                onbound_single = True
+                for k_ in free:
+                    if k_ != onbound and priors[k_]['ctor'] == 'uniform':
+                        priors[k_]['args']['guess'] = truth[k_]
+                        guesses[k_] = truth[k_]
 
         def v(k):
             return priors[k] if k in priors else truth[k]
@@ -307,6 +317,7 @@ class C13:
                            'guesses': guesses, 'priors': priors,
                            'start': start, 'full': full, 'lens': lens,
                            'excluded': excluded, 'onbound': onbound,
+                           'onbound_single': onbound_single,
                            'priors2': priors2,
                            'node': {'epoch': 1.6e9 + rng.randrange(10 ** 6),
                                     'tick': rfloat(rng, 0.001, 30.0)}},
@@ -534,24 +545,13 @@ class C13:
                 return
         if cfg.get('excluded'):
             return      # the generating parameters are out of reach
-        if cfg.get('onbound'):
-            # a start exactly on a prior bound: the unmodified minimisers move
-            # off the bound but can end the search early in the flat r-z-alpha
-            # valley (1-2 % off), so full recovery is not demanded.  What is
-            # demanded: the parameter must not stay *on* a bound that the
-            # generating value lies strictly inside of.
-            k = cfg['onbound']
-            a = cfg['priors'][k]['args']
-            g = cfg['guesses'][k]
-            if k in pars and not fev['tags'].get('model2') and \
-                    a['lo'] < cfg['truth'][k] < a['hi'] and pars[k] == g \
-                    and g in (a['lo'], a['hi']):
-                ex.add(violation(
-                    'C13.recover', ev['id'],
-                    '%s started on its prior bound %r and never left it, '
-                    'although the generating value %r lies inside the bounds'
-                    % (k, g, cfg['truth'][k]),
-                    sig='C13.recover:stuck-on-bound:' + fev['tags']['k']))
+        if cfg.get('onbound') and not (cfg.get('onbound_single') and
+                                       not fev['tags'].get('model2')):
+            # a start exactly on a prior bound, the other parameters perturbed
+            # too: the unmodified minimisers can end the search early (1-2 %
+            # off, or with the parameter still on its bound: 3 of 600 runs)
+            # in the flat r-z-alpha valley.  Full recovery is demanded only
+            # when the parameter on the bound is the only one that is off.
             return
         truth = cfg['truth']
         worst = 0.0
